@@ -88,7 +88,8 @@ impl NormalFormQuery {
             // PERF: better criterion for using top_n
             // PERF: top_n for multiple columns?
             // TODO: efficient PERF top_n for null or constant vec (construct indices of size min(ranking.len(), limit))
-            let indices = if limit < partition_range.len() / 2
+            let indices = if limit > 0
+                && limit < partition_range.len() / 2
                 && self.order_by.len() == 1
                 && !ranking.is_constant()
             {
